@@ -22,7 +22,8 @@ _tmpdir = None
 def tmpdir():
     global _tmpdir
     if _tmpdir is None or not os.path.isdir(_tmpdir):
-        _tmpdir = tempfile.mkdtemp(prefix="vf-smt-")
+        base = os.environ.get("VF_TMP")
+        _tmpdir = tempfile.mkdtemp(prefix="vf-smt-", dir=base if base and os.path.isdir(base) else None)
     return _tmpdir
 
 
